@@ -297,7 +297,50 @@ const FINAL_ITEM_BASE: u64 = 1_000_000;
 
 /// Send `n` final items and drop the last sender. Runs inside the receiver's poll: in a callback
 /// the receiver invokes, or at one of the hook points of its loop.
+/// Re-entrant actions (a send from inside a callback / hook point of the receiver) that have
+/// started and not returned yet: (case index, where, a handle to probe the channel's lock with).
+/// If a vt chunk gets stuck, this tells a deadlock inside the channel from a slow machine.
+static IN_FLIGHT: Mutex<Vec<(u64, &'static str, emit_batcher::ChannelMetrics<Chan>)>> = Mutex::new(Vec::new());
+
+thread_local! {
+    static CURRENT_CASE: std::cell::Cell<u64> = const { std::cell::Cell::new(0) };
+}
+
 fn final_action(log: &SharedLog, sender: Sender<Chan>, n: u64, from: &'static str) {
+    let case = CURRENT_CASE.with(|c| c.get());
+    IN_FLIGHT.lock().unwrap().push((case, from, sender.metric_source()));
+    final_action_inner(log, sender, n, from);
+    let mut inflight = IN_FLIGHT.lock().unwrap();
+    if let Some(pos) = inflight.iter().position(|(c, f, _)| *c == case && *f == from) {
+        inflight.swap_remove(pos);
+    }
+}
+
+/// Called when a vt chunk did not come back: is a re-entrant action stuck on a channel whose
+/// lock nobody else can take either?
+fn diagnose_stuck_vt(r: &mut Report, seed: u64) {
+    let stuck: Vec<_> = std::mem::take(&mut *IN_FLIGHT.lock().unwrap());
+    for (case, from, probe) in stuck.into_iter().take(4) {
+        let reachable = run_bounded("c08_probe", Duration::from_secs(5), move || {
+            let _ = metrics(&probe);
+        })
+        .is_some();
+        if !reachable {
+            r.violation(
+                &format!("C08:vt:reentry-deadlocks:{}", from),
+                &format!(
+                    "a send made from inside the receiver's window ({}) never returned, and the channel's state lock cannot be taken from another thread either: the receiver holds it while running caller-supplied code",
+                    from
+                ),
+                json!({"section": "vt", "seed": seed, "case": case, "stuck_in": from}),
+            );
+        } else {
+            r.inconclusive(format!("vt: case {} was still inside its final action ({}) when the chunk was given up, but the channel's lock is free", case, from));
+        }
+    }
+}
+
+fn final_action_inner(log: &SharedLog, sender: Sender<Chan>, n: u64, from: &'static str) {
     let ids: Vec<u64> = (0..n).map(|k| FINAL_ITEM_BASE + k).collect();
     if !ids.is_empty() {
         push(
@@ -1142,6 +1185,7 @@ fn idle_waits_after_drop(evs: &[Ev]) -> u64 {
 }
 
 fn vt_case(r: &mut Report, seed: u64, idx: u64) {
+    CURRENT_CASE.with(|c| c.set(idx));
     let run = run_vt(seed, idx, cfg!(miri));
     check_vt(r, seed, idx, &run);
 }
@@ -2049,20 +2093,27 @@ mod threads {
         for k in 0..items_with_callbacks {
             sender.send(10 + k);
         }
-        let helper = {
-            let (go, helper_done) = (go.clone(), helper_done.clone());
-            thread::spawn(move || {
+        let helper_result: Done<bool> = Done::new();
+        {
+            let (go, helper_done, helper_result) = (go.clone(), helper_done.clone(), helper_result.clone());
+            let _ = thread::Builder::new().name("c08_released".into()).spawn(move || {
                 let released = go.wait(WATCHDOG).is_some();
                 for k in 0..finals {
                     sender.send(FINAL_ITEM_BASE + k);
                 }
                 drop(sender);
                 helper_done.set(());
-                released
-            })
-        };
+                helper_result.set(released);
+            });
+        }
         gate.open();
-        let released = helper.join().unwrap_or(false);
+        let released = match helper_result.wait(WATCHDOG + WATCHDOG) {
+            Some(x) => x,
+            None => {
+                r.inconclusive("join/release: the released helper thread did not finish sending and dropping within the watchdog");
+                return;
+            }
+        };
         match join_bounded(handle, WATCHDOG) {
             None => {
                 r.inconclusive(format!("join/release: {} receiver had not terminated within the watchdog", rk.name()));
@@ -2258,11 +2309,30 @@ fn main() {
         std::process::exit(r.finish());
     }
 
+    // Every section runs on a helper thread with its own report and a limit, so that nothing the
+    // code under test does (a lock that is never released, …) can keep the monitor from ending
+    // with a result.
+    let sec_limit = Duration::from_secs(if args.thorough() { 1500 } else { 200 });
+
     // 1. virtual time (delay divisor untouched: the real durations are observed)
     if want("vt") {
         // Miri interprets ~1000x slower: its lane passes an absolute case count instead of a scale
         let n = if cfg!(miri) { args.get_u64("miri-cases", 16) } else { args.n(600_000, 12_000_000) };
-        par_cases(&mut r, &args, n, |i, r| vt_case(r, seed, i));
+        let chunk = 100_000u64;
+        let mut start = 0u64;
+        while start < n {
+            let end = (start + chunk).min(n);
+            let args2 = args.clone();
+            let ok = bounded_section(&mut r, "vt", Duration::from_secs(if cfg!(miri) { 1400 } else { 120 }), move |r| {
+                par_cases(r, &args2, end - start, |i, r| vt_case(r, seed, start + i));
+            });
+            if !ok {
+                diagnose_stuck_vt(&mut r, seed);
+                r.observe("vt:cases-completed-before-a-chunk-got-stuck", start);
+                break;
+            }
+            start = end;
+        }
         // leave room for a sample of the other sections
         r.samples.truncate(3);
     }
@@ -2271,12 +2341,17 @@ fn main() {
     {
         // worker threads sleep for real: scale the delays (the logical back-off state is untouched)
         emit_batcher::verif::set_delay_divisor(1000);
+        // the overstay cells mostly sleep (T = 1.2 s each): they run next to the other sections
+        let overstay = if want("overstay") { threads::overstay_start(&r, &args) } else { Vec::new() };
         if want("ctx") {
-            threads::matrix(&mut r, &args);
+            let args2 = args.clone();
+            bounded_section(&mut r, "ctx", sec_limit, move |r| threads::matrix(r, &args2));
         }
         if want("join") {
-            threads::termination(&mut r, &args);
+            let args2 = args.clone();
+            bounded_section(&mut r, "join", sec_limit, move |r| threads::termination(r, &args2));
         }
+        threads::overstay_collect(&mut r, overstay);
         emit_batcher::verif::set_delay_divisor(1);
     }
 
